@@ -18,4 +18,12 @@ pub fn explore(src: &str) {
     println!("--- linear\n{}", lin);
     println!("--- lp\n{}", lin.to_lp_format());
     match rooc::auto_solver(&lin) { Ok(s) => println!("--- auto_solver\n{}", s), Err(e) => println!("--- auto_solver error: {:?}", e) }
+    let g = |name: &str, f: &dyn Fn() -> String| {
+        let r = std::panic::catch_unwind(std::panic::AssertUnwindSafe(|| f())).unwrap_or("PANIC".to_string());
+        println!("--- {}: {}", name, r);
+    };
+    g("milp", &|| format!("{:?}", rooc::solve_milp_lp_problem(&lin).map(|s| s.value())));
+    g("clarabel", &|| format!("{:?}", rooc::solve_real_lp_problem_clarabel(&lin).map(|s| s.value())));
+    g("micro_lp", &|| format!("{:?}", rooc::solve_real_lp_problem_micro_lp(&lin).map(|s| s.value())));
+    g("slow_simplex", &|| format!("{:?}", rooc::solve_real_lp_problem_slow_simplex(&lin, 1000).map(|s| s.value())));
 }
